@@ -7,6 +7,7 @@ All theorems hold for every program of the fragment, every call depth and every 
 -/
 import SteelVerif.C01.Correct
 import SteelVerif.C01.PropsCore
+import SteelVerif.C01.PropsTie
 namespace SteelVerif.C01
 
 theorem runVM_of_steps (fns : List FnDef) : ∀ (n m : Nat) (a b : VM) (v : Val),
